@@ -35,7 +35,7 @@ const char * const engine_props[] = { "C19", "C20", NULL };
 enum {
 	N_SIGN, N_SIGN_OK, N_SIGN_FAIL, N_V0, N_V1, N_V2, N_V3, N_TIME_READS, N_F_TIME, N_F_ALLOC, N_DAY_ROLL, N_SEC_ROLL,
 	N_BODY_NULL, N_BODY_EMPTY, N_BODY_BIG, N_HASH, N_HASH_CTX_BYTES, N_AES, N_AESCTR, N_AESCTR_REUSE, N_READKEYS,
-	N_RK_OK, N_RK_FAIL_AFTER_SECRET, N_F_STREAM_ERR, N_F_FCLOSE, N_F_SHORT, N_FREED_SCANNED, N_SECRET60, N_LEAKNOTE
+	N_RK_OK, N_RK_FAIL_AFTER_SECRET, N_F_STREAM_ERR, N_F_FCLOSE, N_F_SHORT, N_FREED_SCANNED, N_SECRET60, N_LEAKNOTE, N_AIMED
 };
 const char * const engine_counters[] = {
 	"sign_calls", "sign_ok", "sign_failed", "variant_s3_headers", "variant_s3_querystr", "variant_svc_headers",
@@ -44,7 +44,7 @@ const char * const engine_counters[] = {
 	"hash_computations", "hash_context_bytes_checked", "aes_key_expand_free", "aesctr_stream_free",
 	"probe_aesctr_reinit", "readkeys_calls", "readkeys_ok", "probe_readkeys_failed_after_secret",
 	"fault_stream_read_error", "fault_fclose_failed", "fault_stream_short_reads", "freed_blocks_scanned",
-	"probe_secret_64_byte_hmac_key", "note_blocks_left_allocated_not_judged", NULL
+	"probe_secret_64_byte_hmac_key", "note_blocks_left_allocated_not_judged", "probe_formatted_length_aimed_at_1024", NULL
 };
 
 #define AF_SINCE(before) (simalloc_failed != (before))
@@ -165,7 +165,7 @@ static void
 do_sign(const struct pline * l)
 {
 	int variant = (int)(l->a[0] < 0 ? -l->a[0] : l->a[0]) % 4;
-	size_t idlen = (size_t)(l->a[1] < 0 ? 0 : l->a[1]) % 201, seclen = (size_t)(l->a[2] < 0 ? 0 : l->a[2]) % 201;
+	size_t idlen = (size_t)(l->a[1] < 0 ? 0 : l->a[1]) % 201, seclen = (size_t)(l->a[2] < 0 ? 0 : l->a[2]) % 5001;	/* (the property bounds the other strings at 200 characters, not the secret) */
 	size_t reglen = (size_t)(l->a[3] < 0 ? 0 : l->a[3]) % 201, buclen = (size_t)(l->a[4] < 0 ? 0 : l->a[4]) % 201;
 	size_t pathlen = (size_t)(l->a[5] < 0 ? 0 : l->a[5]) % 201;
 	int bodykind = (int)(l->a[6] < 0 ? -l->a[6] : l->a[6]) % 3;	/* 0 absent 1 empty 2 bytes */
@@ -179,6 +179,7 @@ do_sign(const struct pline * l)
 	char * bucket = pooled ? mkstr(unres, 5, (uint64_t)(l->a[14] % 3), 0) : mkstr(unres, buclen, seed + 4, 0);
 	char * path = mkstr(unres, pathlen, seed + 5, '/'), * op = mkstr(unres, buclen, seed + 6, 0);
 	const char * method = (seed & 1) ? "GET" : "PUT";
+	int aim = (l->nargs > 14 && l->a[14] < 0) ? (int)(-l->a[14]) : 0;	/* aim a formatted string at a length around 1024 */
 	uint8_t * body = NULL;
 	char * sha = NULL, * date = NULL, * auth = NULL, * query = NULL;
 	int rc, f0 = simalloc_failed;
@@ -186,6 +187,47 @@ do_sign(const struct pline * l)
 	char want_hash[65], want_sig[65];
 	struct { char * p; size_t n, cap; } cr = { NULL, 0, 0 };
 
+	if (aim && (variant == 0 || variant == 1)) {
+		/*
+		 * Choose the lengths (all within the 0..200 the property quantifies over) so that the canonical request
+		 * the library has to format is 1022..1026 characters long: a size at which a formatting routine with a
+		 * fixed first-try buffer changes strategy.
+		 */
+		size_t target = 1024 + (size_t)(aim % 5) - 2, fixed0, need, parts, each;
+		char num[32];
+
+		snprintf(num, sizeof(num), "%d", expiry);
+		if (variant == 1) {
+			/* variable: key id, region, bucket, path */
+			fixed0 = strlen(method) + 1 + 1 + strlen("X-Amz-Algorithm=AWS4-HMAC-SHA256&X-Amz-Credential=") + 3 + 8 + 3 + 3 + 2 +
+			    strlen("%2Faws4_request&X-Amz-Date=") + 16 + strlen("&X-Amz-Expires=") + strlen(num) + strlen("&X-Amz-SignedHeaders=host") +
+			    1 + strlen("host:") + strlen(".s3.amazonaws.com\n\nhost\nUNSIGNED-PAYLOAD");
+			parts = 4;
+		} else {
+			/* variable: bucket, path (key id and region do not enter the canonical request) */
+			fixed0 = strlen(method) + 1 + 1 + 1 + strlen("host:") + strlen(".s3.amazonaws.com\n") + strlen("x-amz-content-sha256:") + 64 + 1 +
+			    strlen("x-amz-date:") + 16 + 1 + 1 + strlen("host;x-amz-content-sha256;x-amz-date\n") + 64;
+			parts = 2;
+		}
+		need = target > fixed0 ? target - fixed0 : 0;
+		if (need >= parts && need <= parts * 200) {
+			each = need / parts;
+			free(path);
+			free(bucket);
+			buclen = each;
+			pathlen = need - each * (parts - 1);
+			if (parts == 4) {
+				free(key_id);
+				free(region);
+				idlen = reglen = each;
+				key_id = mkstr(unres, idlen, seed + 1, 0);
+				region = mkstr(unres, reglen, seed + 3, 0);
+			}
+			bucket = mkstr(unres, buclen, seed + 4, 0);
+			path = mkstr(unres, pathlen, seed + 5, '/');
+			R->cnt[N_AIMED]++;
+		}
+	}
 	if (pooled) {
 		wall_now = 1700000000 + (l->a[14] % 2) * 40;	/* the same UTC day again */
 	} else if (l->a[10] >= 0) {
@@ -677,6 +719,21 @@ engine_gen(struct plan * P, uint64_t seed, struct prng * g)
 			static const int64_t lens[] = { 0, 1, 2, 20, 40, 59, 60, 61, 100, 200 };
 			int faulty = prng_chance(g, 25);
 
+			if (prng_chance(g, 6)) {
+				/* secrets of unusual length: "AWS4" + secret around 1 KiB / 4 KiB, and far beyond the HMAC block size */
+				static const int64_t sl[] = { 1018, 1019, 1020, 1021, 1022, 4090, 4091, 4092, 4093, 4094, 508, 2044, 250 };
+
+				plan_add(P, "step", "sign", 15, (int64_t)prng_n(g, 4), (int64_t)(1 + prng_n(g, 30)), sl[prng_n(g, 13)], (int64_t)(1 + prng_n(g, 20)),
+				    (int64_t)(1 + prng_n(g, 30)), (int64_t)(1 + prng_n(g, 60)), (int64_t)prng_n(g, 3), (int64_t)prng_n(g, 300), (int64_t)prng_n(g, 1000000000),
+				    (int64_t)prng_n(g, 700000), (int64_t)-1, (int64_t)1, (int64_t)-1, (int64_t)-1, (int64_t)0);
+				continue;
+			}
+			if (prng_chance(g, 10)) {
+				plan_add(P, "step", "sign", 15, (int64_t)prng_n(g, 2), (int64_t)(1 + prng_n(g, 60)), (int64_t)(1 + prng_n(g, 60)), (int64_t)(1 + prng_n(g, 40)),
+				    (int64_t)(1 + prng_n(g, 60)), (int64_t)1, (int64_t)prng_n(g, 3), (int64_t)prng_n(g, 300), (int64_t)prng_n(g, 1000000000),
+				    (int64_t)prng_n(g, 700000), (int64_t)-1, (int64_t)1, (int64_t)-1, (int64_t)-1, (int64_t)-1 - (int64_t)prng_n(g, 10));
+				continue;
+			}
 			if (prng_chance(g, 12)) {
 				/* everything long: the strings the library formats are around a kilobyte */
 				plan_add(P, "step", "sign", 15, (int64_t)prng_n(g, 4), (int64_t)(120 + prng_n(g, 81)), (int64_t)(120 + prng_n(g, 81)), (int64_t)(120 + prng_n(g, 81)),
